@@ -652,7 +652,7 @@ func TestEBNFGrammarsEndToEnd(t *testing.T) {
 	cyclicListed := rec.Listed(cyclicKey)
 	kernelTolerated()
 	opts := gen.SpecOpts{MaxRules: 2, Depth: 3, Literals: []string{"a", "b", "c"}}
-	rec.Check(t, 600, 30000, func(t *rapid.T) {
+	rec.Check(t, 1000, 30000, func(t *rapid.T) {
 		var m *ref.SpecModel
 		if rapid.IntRange(0, 3).Draw(t, "generator") == 0 {
 			m = gen.Spec(t, opts)
